@@ -81,6 +81,8 @@ impl CompiledDfa {
         self.next_states.clear();
         let mut match_start = None;
         let mut match_end = None;
+        // The end of the best match plus the length of its lookahead match.
+        let mut match_extent = None;
         let mut match_terminal_id = None;
         for (index, c) in char_indices {
             if match_start.is_none() {
@@ -90,9 +92,6 @@ impl CompiledDfa {
             }
 
             for state in self.current_states.iter() {
-                if match_end.is_none() && self.end_states[*state].0 {
-                    match_end = Some(index);
-                }
                 for (cc, next) in &self.states[*state].transitions {
                     if match_char_class(*cc, c) {
                         if !self.next_states.contains(next) {
@@ -127,30 +126,27 @@ impl CompiledDfa {
                                     }
                                 }
                             }
-                            // Update the match end and terminal id if the match is longer or the
-                            // terminal id is lower.
-                            if let Some(match_end_index) = match_end.as_ref() {
-                                match (index + c.len_utf8()).cmp(&(match_end_index + lookahead_len))
-                                {
-                                    std::cmp::Ordering::Greater => {
-                                        match_end = Some(index + c.len_utf8());
-                                        match_terminal_id = Some(self.end_states[*next].1);
-                                    }
-                                    std::cmp::Ordering::Equal => {
-                                        let terminal_id =
-                                            self.priority_of(self.end_states[*next].1);
-                                        if terminal_id
-                                            < self.priority_of(match_terminal_id.unwrap())
-                                        {
-                                            match_terminal_id = Some(self.end_states[*next].1);
+                            // Update the match if its extent, i.e. its end plus the length of its
+                            // lookahead match, is greater or if the extent is equal and the
+                            // priority of the terminal is higher (lower index).
+                            let end = index + c.len_utf8();
+                            let extent = end + lookahead_len;
+                            let is_better = match (match_extent, match_terminal_id) {
+                                (Some(best_extent), Some(best_terminal_id)) => {
+                                    match extent.cmp(&best_extent) {
+                                        std::cmp::Ordering::Greater => true,
+                                        std::cmp::Ordering::Equal => {
+                                            self.priority_of(self.end_states[*next].1)
+                                                < self.priority_of(best_terminal_id)
                                         }
-                                    }
-                                    std::cmp::Ordering::Less => {
-                                        match_terminal_id = Some(self.end_states[*next].1);
+                                        std::cmp::Ordering::Less => false,
                                     }
                                 }
-                            } else {
-                                match_end = Some(index + c.len_utf8());
+                                _ => true,
+                            };
+                            if is_better {
+                                match_end = Some(end);
+                                match_extent = Some(extent);
                                 match_terminal_id = Some(self.end_states[*next].1);
                             }
                         }
